@@ -75,6 +75,10 @@ class Gen:
         nblocks = rng.choice([1, 2, 2, 3, 3, 4, 4, 5, 6, 8, 10])
         if self.tier == "thorough" and rng.random() < 0.2:
             nblocks = rng.randrange(8, 15)
+        if self.knobs.get("big_p") and rng.random() < self.knobs["big_p"]:
+            # now and then a module of a size real ones have (dozens of
+            # blocks and functions, offsets beyond one byte)
+            nblocks = rng.randrange(30, 90)
         # --- text section blocks
         blocks = []
         code_blocks = []
